@@ -1713,8 +1713,31 @@ func ruleQueueDrained(r *Run) {
 	}
 	drained := map[*types.Var]bool{}
 	// receives inside a for loop of body; resolve maps a channel expression of holder to the field it stands for
+	var scanD func(holder *Func, body *ast.BlockStmt, resolve func(x ast.Expr) *types.Var, depth int)
 	scan := func(holder *Func, body *ast.BlockStmt, resolve func(x ast.Expr) *types.Var) {
+		scanD(holder, body, resolve, 0)
+	}
+	scanD = func(holder *Func, body *ast.BlockStmt, resolve func(x ast.Expr) *types.Var, depth int) {
 		ast.Inspect(body, func(nd ast.Node) bool {
+			// drain(h.sendChan) / chanutil.Drain(h.sendChan): a helper that is handed the queue
+			if call, isCall := nd.(*ast.CallExpr); isCall && depth < 3 {
+				if g, _ := calleeObj(holder.Info(), call).(*types.Func); g != nil {
+					if gd := r.P.Funcs[g]; gd != nil && gd.Body != nil && gd != holder {
+						args := call.Args
+						scanD(gd, gd.Body, func(x ast.Expr) *types.Var {
+							if id, isID := ast.Unparen(x).(*ast.Ident); isID {
+								if pv, ok := gd.Info().Uses[id].(*types.Var); ok {
+									if k := paramIndex(gd, pv); k >= 0 && k < len(args) {
+										return resolve(args[k])
+									}
+								}
+							}
+							fv, _ := r.chanField(gd, x)
+							return fv
+						}, depth+1)
+					}
+				}
+			}
 			loop, ok := nd.(*ast.ForStmt)
 			if !ok {
 				if rs, isRange := nd.(*ast.RangeStmt); isRange {
